@@ -47,8 +47,9 @@ m = {
     "checks": checks,
     "not_applicable": na,
     "notes": "All checks honour VERIF_SEED and VERIF_TIER, rebuild stale binaries from /repo's working tree (content hash over "
-             "/repo/include, sim/ and the scenario source) and write evidence/<id>.json. Exit 0 held / 1 VIOLATION / 2 candidate did not "
-             "reproduce (harness nondeterminism) / 3 harness or build error. Known findings live in known_findings.json.",
+             "/repo/include, sim/ and the scenario source) and write evidence/<id>.json. Exit 0 held / 1 VIOLATION (each with a replay "
+             "that was reproduced twice in fresh processes) / 2 no candidate of the run could be reproduced / 3 harness, build or internal "
+             "error. Known findings live in known_findings.json; seeded changes and their detection results in seeded/.",
 }
 extra = json.load(open(os.path.join(VERIF, "bin", "pending.json"))) if os.path.exists(os.path.join(VERIF, "bin", "pending.json")) else {}
 for pid, reason in sorted(extra.items()):
